@@ -315,6 +315,31 @@ loop:
 	return out
 }
 
+// truth applies the one truthiness rule: a value is asked for its `B`. For the values the
+// generator uses as conditions that is the value itself (booleans) or the object's own method.
+func (m *Model) truth(v Val) (bool, res) {
+	if v.T == "obj" {
+		for j, k := range v.K {
+			if k == "B" && v.V[j].T == "func" {
+				r := m.callAs("truth/B", v.V[j], []Val{v}, nil)
+				if r.c == cRaise {
+					return false, r
+				}
+				if r.v.T != "bool" {
+					m.giveUp("B returning a non-boolean")
+					return false, norm(vNil)
+				}
+				return r.v.B, norm(vNil)
+			}
+		}
+	}
+	b, ok := truthy(v)
+	if !ok {
+		m.giveUp("truthiness of " + v.T)
+	}
+	return b, norm(vNil)
+}
+
 func (m *Model) guard(s *N, env *MEnv) (bool, res) {
 	if s.Guard == nil {
 		return true, norm(vNil)
@@ -322,6 +347,9 @@ func (m *Model) guard(s *N, env *MEnv) (bool, res) {
 	r := m.ev(s.K+"/guard", s.Guard, env)
 	if r.c == cRaise {
 		return false, r
+	}
+	if r.v.T == "obj" {
+		return m.truth(r.v)
 	}
 	if r.v.T != "bool" {
 		m.giveUp("non-boolean guard")
@@ -589,9 +617,17 @@ func (m *Model) eval(n *N, env *MEnv) res {
 		if c.c == cRaise {
 			return c
 		}
-		b, ok := truthy(c.v)
-		if !ok {
-			return m.giveUp("if on unknown")
+		var b bool
+		if c.v.T == "obj" {
+			var tr res
+			if b, tr = m.truth(c.v); tr.c == cRaise {
+				return tr
+			}
+		} else {
+			var ok bool
+			if b, ok = truthy(c.v); !ok {
+				return m.giveUp("if on unknown")
+			}
 		}
 		if b {
 			return m.ev("if/then", n.A, env)
